@@ -1402,6 +1402,10 @@ def run(ctx):
     rep.floor('C15.R4', 4 * len(vs), 'yydmap entries of the tables variants (2-8 each; 104 in 20 variants today) (+1: the coupled type symbols in the generator)')
     rep.floor('C15.R5', 17 * (1 + len(vs)), 'magic, 17 enumerators and the flags decoding, flex and every variant')
     rep.floor('C15.R6', len(vs), 'yytables_destroy of every variant')
+    import c15_file
+    nfile = c15_file.run(ctx, rep)
+    rep.setcount('file_tables_compared', nfile)
+    rep.floor('C15.R7', 30, 'tables of the --tables-verify variants decoded from the files flex wrote')
     rep.undecided += ['that a loaded table has the same contents as the in-code table (value level round trip)',
                       'concatenated table sets, truncation at every offset (only "every read is tested": C14.R4)',
                       'that td_hilen/td_lolen computed by the generator describe the data array',
